@@ -24,9 +24,11 @@ import shutil
 import subprocess
 import time
 
+import paths
+
 KANI_HOME = os.path.expanduser("~/.kani/kani-0.68.0")
 KANI_LIB_C = os.path.join(KANI_HOME, "library/kani/kani_lib.c")
-BUILD = "/verif/.build"
+BUILD = paths.BUILD
 
 CBMC_FLAGS = [
     "--no-malloc-may-fail", "--no-undefined-shift-check", "--no-signed-overflow-check",
@@ -47,8 +49,9 @@ def codegen(crate_dir, name, log, kani_args=()):
     """Compile the harness crate with kani-compiler; return {pretty_name: metadata}."""
     tdir = os.path.join(BUILD, name)
     os.makedirs(tdir, exist_ok=True)
-    # regenerate from /repo's lock file every time
-    shutil.copy("/repo/Cargo.lock", os.path.join(crate_dir, "Cargo.lock"))
+    crate_dir = paths.crate_copy(crate_dir, os.path.basename(crate_dir) + "-" + name)
+    # regenerate from the repository's lock file every time
+    shutil.copy(os.path.join(paths.REPO, "Cargo.lock"), os.path.join(crate_dir, "Cargo.lock"))
     # force recompilation of the harness crate (cargo fingerprints /repo by mtime itself)
     t0 = time.time()
     # wipe stale per-harness outputs so that removed harnesses can not linger
